@@ -20,7 +20,7 @@ Holds(c, e) ==
          \A i \in DOMAIN e.paths : /\ SparsePathOK(e.paths[i].line, e.paths[i].pts)
                                    /\ \A j \in DOMAIN e.paths[i].pts : AbsH(e.paths[i].pts[j][3] - e.paths[i].requery[j]) <= 1
     [] c = "C19_SparseDrop" -> e.kind = "sparse" =>
-         \A i \in DOMAIN e.paths : CandsOK(e.paths[i].line, e.paths[i].cand, e.tol) /\ SparseDropOK(e.paths[i].cand, e.paths[i].pts, e.tol)
+         \A i \in DOMAIN e.paths : CandsOK(e.paths[i].line, e.paths[i].cand, e.tol) /\ SparseDropOK(e.paths[i].cand, e.paths[i].pts, IF e.exact THEN e.tol - 2 ELSE e.tol)
     \* the flat map: zero everywhere; a sampled line is its two ends at height zero
     [] c = "C19_Flat" -> e.kind = "flat" =>
          /\ \A i \in DOMAIN e.queries : e.queries[i][3] = 0
